@@ -4,13 +4,17 @@ import gen_bus
 
 RULE = ('python-random histories with every limit set to 1-3 in the configuration (completed connections, per-user connections '
         'with three uids, names, match rules, pending replies, message size): connect/Hello/close, RequestName/ReleaseName '
-        'with queues and replacement, AddMatch/RemoveMatch, unanswered calls to several callees, oversize messages, and in every second history one or two ReloadConfig calls that change all limits while the bus runs; the model '
+        'with queues and replacement, AddMatch/RemoveMatch, unanswered calls to several callees, oversize messages, and in every second history one or two ReloadConfig calls that change all limits while the bus runs, every eleventh history fills max_incomplete_connections exactly and frees places by completion or by leaving; the model '
         'refuses exactly the request that would exceed a limit and nothing else; distinct = distinct scenario texts')
 W = {'req': 4, 'rel': 2, 'query': 0.5, 'addmatch': 3, 'rmmatch': 1.5, 'signal': 0.5, 'call': 5, 'reply': 2,
      'usignal': 0.3, 'close': 1.5, 'driver_other': 0.1, 'nodest': 0.1, 'hello': 0.5, 'big': 0.3}
 
 
 def gen(rng, i):
+    if i % 11 == 7:
+        # the limit on connections that have not finished connecting: filled exactly, freed by completion or by leaving
+        import c10
+        return c10.at_the_incomplete_limit(rng)
     cfg = {'maxNames': rng.choice([2, 3, 4]), 'maxMatch': rng.choice([1, 2, 3]), 'maxReplies': rng.choice([1, 2, 3]),
            'maxCompleted': rng.choice([2, 3, 4, 100000]), 'maxPerUser': rng.choice([1, 2, 3, 100000]),
            'maxMsgSize': 70000}
